@@ -902,7 +902,13 @@ pub fn case_import(ctx: &mut Ctx, case: &Value) {
             match lib {
                 Err(k) => {
                     if *m != format!("err {}", k) {
-                        ctx.fail_corr(case, format!("route {}: library Err({}), model {:?}", which, k, m));
+                        // an input that violates several rules may be reported under any of them
+                        // (which one the importer meets first is not part of the contract): the
+                        // model must reject too, and both named rules must be violated
+                        match (m.strip_prefix("err "), &spec) {
+                            (Some(mk), Err(viol)) if viol.contains(mk) && viol.contains(k.as_str()) => ctx.stat("import_rejected_under_another_violated_rule"),
+                            _ => ctx.fail_corr(case, format!("route {}: library Err({}), model {:?}", which, k, m)),
+                        }
                     }
                 }
                 Ok(x) => match m.strip_prefix("ok ") {
